@@ -9,6 +9,8 @@ import AuthModel.Secret
 import AuthModel.Config
 import AuthModel.Tls
 import AuthModel.Factory
+import AuthModel.Store.RedisCmd
+import AuthModel.Oidc.Discovery
 open AuthModel AuthModel.Wire
 
 def parseMatch (t : Tok) : Option StringMatch :=
@@ -73,6 +75,7 @@ structure DState where
   confRedis : List (Str × Bool) := []
   tls : Tls.State := Tls.init
   tlsSettings : List (Nat × Tls.Settings × Tls.LoadResult) := []
+  discCache : Discovery.Cache := []
 
 def DState.parses (d : DState) : Str → Bool := fun s =>
   match d.parseTbl.find? (·.1 == s) with
@@ -147,6 +150,55 @@ def storeOp (d : DState) (toks : List Tok) : DState × String :=
     if w.kind = 0 then ({ d with st := { w with mem := w.mem.removeAllExpired d.now } }, "ok") else (d, "ok")
   | _ => (d, "bad-op")
 
+/-- raw server state of a session key, as the harness reads it from miniredis -/
+def showDump (now : Int) (h0 : RHash) : String :=
+  let h := Redis.visible now h0
+  if !Redis.hasFields h then "absent" else
+  let f (k : String) (v : Option Str) : List String := match v with | some v => [k ++ "=" ++ hex v] | none => []
+  let g (k : String) (v : Option Int) : List String := match v with | some v => [k ++ "=" ++ toString v] | none => []
+  String.intercalate " " (f "access_token" h.accessToken ++ g "access_token_expiry" h.accessExp ++ f "code_verifier" h.codeVerifier
+    ++ f "id_token" h.idToken ++ f "nonce" h.nonce ++ f "refresh_token" h.refreshToken ++ f "requested_url" h.requestedUrl
+    ++ f "state" h.state ++ g "time_added" h.timeAdded)
+  ++ " ttl=" ++ (match h.expireAt with | some e => toString (e * Redis.sec - now) | none => "-")
+
+def parseCmdFaults (t : Tok) : List RedisCmd.Fault :=
+  (splitList ',' t).map fun x => if x = ['1'] then .lost false else if x = ['2'] then .lost true else .none
+
+def showIssued (l : List String) : String := if l.isEmpty then "-" else String.intercalate "," l
+
+/-- a Redis store method at command level under a fault script -/
+def storeOpF (d : DState) (fs : List RedisCmd.Fault) (toks : List Tok) : DState × String :=
+  let w := d.store
+  if w.kind = 0 then (d, "bad-op") else
+  let fin {α : Type} (id : Str) (o : RedisCmd.Outcome α) (sh : α → String) : DState × String :=
+    ({ d with st := { d.st with red := upd w.red id o.state } }, sh o.res ++ " cmds=" ++ showIssued o.issued)
+  let start (id : Str) : RHash := Redis.visible d.now (w.red id)
+  match toks with
+  | [['s','e','t','t','o','k'], _inst, id, a, b, c, e] =>
+    match unhex id, unhex a, unhex b, unhex c, expOf e with
+    | some id, some a, some b, some c, some e =>
+      fin id (RedisCmd.run d.now fs (RedisCmd.setTokP w.abs w.idle d.now { idToken := a, accessToken := b, refreshToken := c, accessExp := e }) (start id)) okErr
+    | _, _, _, _, _ => (d, "bad-op")
+  | [['s','e','t','a','u','t','h'], _inst, id, a, b, c, e] =>
+    match unhex id, unhex a, unhex b, unhex c, unhex e with
+    | some id, some a, some b, some c, some e =>
+      fin id (RedisCmd.run d.now fs (RedisCmd.setAuthP w.abs w.idle d.now { state := a, nonce := b, requestedUrl := c, codeVerifier := e }) (start id)) okErr
+    | _, _, _, _, _ => (d, "bad-op")
+  | [op, _inst, id] =>
+    match unhex id with
+    | none => (d, "bad-op")
+    | some id =>
+      if op = "gettok".toList then
+        fin id (RedisCmd.run d.now fs (RedisCmd.getTokP w.parses w.abs w.idle d.now) (start id)) fun r => match r with | .ok t => showTok t | .err => "err"
+      else if op = "getauth".toList then
+        fin id (RedisCmd.run d.now fs (RedisCmd.getAuthP w.abs w.idle d.now) (start id)) fun r => match r with | .ok t => showAuth t | .err => "err"
+      else if op = "clear".toList then
+        fin id (RedisCmd.run d.now fs (RedisCmd.clearAuthP w.abs w.idle d.now) (start id)) okErr
+      else if op = "remove".toList then
+        fin id (RedisCmd.run d.now fs RedisCmd.removeP (start id)) okErr
+      else (d, "bad-op")
+  | _ => (d, "bad-op")
+
 /-! handler-level records -/
 
 def parseStrList (t : Tok) : Option (List Str) := (splitList ',' t).mapM unhex
@@ -206,6 +258,57 @@ def showAct : Act → String
 def showTrace (tr : List Act) : String :=
   let items := (tr.filter fun a => a != .now).map showAct
   if items.isEmpty then "-" else String.intercalate "," items
+
+/-! endpoint discovery -/
+
+def parseJwks (t : Tok) : Option Discovery.Jwks :=
+  match t with
+  | ['u'] => some .unset
+  | ['s'] => some (.static [])
+  | 'f' :: ':' :: r =>
+    match splitC ':' r with
+    | [u, i] => do pure (.fetcher (← unhex u) (← natOf i) false)
+    | _ => none
+  | _ => none
+
+def showJwks : Discovery.Jwks → String
+  | .unset => "u"
+  | .static _ => "s"
+  | .fetcher u i _ => "f:" ++ hex u ++ ":" ++ toString i
+
+def parseFetchAns (t : Tok) : Option Discovery.FetchAns :=
+  match t with
+  | ['t'] => some .transportErr
+  | ['u'] => some .undecodable
+  | 's' :: r => (natOf r).map .status
+  | 'd' :: ':' :: r =>
+    match splitC ':' r with
+    | [a, b, c, e] => do
+      pure (.doc { authorizationEndpoint := (← unhex a), tokenEndpoint := (← unhex b), jwksUri := (← unhex c), endSessionEndpoint := (← unhex e) })
+    | _ => none
+  | _ => none
+
+def showLogoutPair : Option (Str × Str) → String
+  | none => "-"
+  | some (p, u) => hex p ++ ":" ++ hex u
+
+def handleDisc (d : DState) (toks : List Tok) : DState × String :=
+  match toks with
+  | [uri, auth, tok, jwks, lo, ans, apply] =>
+    match unhex uri, unhex auth, unhex tok, parseJwks jwks, parsePairOpt lo, parseFetchAns ans, boolOf apply with
+    | some uri, some auth, some tok, some jwks, some lo, some ans, some apply =>
+      let c : Discovery.DCfg := { configurationUri := uri, authUri := auth, tokenUri := tok, jwks := jwks, logout := lo }
+      let (cache, res, req) := Discovery.load d.discCache c ans
+      let d := { d with discCache := cache }
+      let rq := " req=" ++ (if req then "1" else "0")
+      match res with
+      | .ok r =>
+        let d := if apply then { d with cfg := Discovery.applyTo d.cfg r } else d
+        (d, "ok auth=" ++ hex r.authUri ++ " tok=" ++ hex r.tokenUri ++ " jwks=" ++ showJwks r.jwks ++ " logout=" ++ showLogoutPair r.logout ++ rq)
+      | .error .fetch => (d, "err:fetch" ++ rq)
+      | .error .missingLogoutRedirect => (d, "err:missing-logout-redirect" ++ rq)
+    | _, _, _, _, _, _, _ => (d, "bad-op")
+  | _ => (d, "bad-op")
 
 def handleReq (d : DState) (toks : List Tok) : DState × String :=
   match toks with
@@ -430,7 +533,7 @@ def handleTls (d : DState) (toks : List Tok) : DState × String :=
       match d.tlsSettings.find? (·.1 == idx) with
       | some (_, s, r) =>
         let cur : Tls.LoadResult := match r with
-          | .cfg _ => (match Tls.lookupPool d.tls.pool s with | some t => .cfg t | none => r)
+          | .cfg _ => (match Tls.lookupPool d.tls.pool (Tls.keyOf tlsOracle s) with | some t => .cfg t | none => r)
           | other => other
         (d, if Tls.accepts cur ca then "accept" else "reject")
       | none => (d, "bad-op")
@@ -535,7 +638,13 @@ def handle (d : DState) (toks : List Tok) : DState × String :=
     match intOf n with
     | some n => ({ d with now := d.now + n }, "ok")
     | none => (d, "bad-op")
+  | [['s','o','p'], ['d','u','m','p'], _inst, id] =>
+    (d, match unhex id with
+      | some id => if d.store.kind = 0 then "n/a" else showDump d.now (d.store.red id)
+      | none => "bad-op")
   | ['s','o','p'] :: rest => storeOp d rest
+  | ['s','o','p','f'] :: fs :: rest => storeOpF d (parseCmdFaults fs) rest
+  | ['d','i','s','c'] :: rest => handleDisc d rest
   | _ => (d, "bad-op")
 
 partial def loop (h : IO.FS.Stream) (out : IO.FS.Stream) (d : DState) : IO Unit := do
